@@ -179,8 +179,14 @@ def run(tier, seed):
             with ThreadPoolExecutor(max_workers=1) as bg:
                 fut = bg.submit(design_checks, res)
                 rc, counts, cases = export_cases(tier, schema_file, tmp)
+                # every constructor probe also as an assignment to an existing object
+                nid = max(c["id"] for c in cases) + 1
+                twins = []
+                for c in [c for c in cases if c["kind"] == "ctor"]:
+                    twins.append(dict(c, kind="setattr", id=nid))
+                    nid += 1
                 t1 = time.time()
-                obs = cu.run_cases(cases, info["D"], tmp, pool)
+                obs = cu.run_cases(cases + twins, info["D"], tmp, pool)
                 t2 = time.time()
                 fut.result()
         finally:
@@ -189,6 +195,7 @@ def run(tier, seed):
         t3 = time.time()
         res.add_mc("MC_ConfigCases", rc, "argument map vs real schema (paths exist, disjoint, values differ from defaults); exports %d cases" % len(cases))
         sanity_and_coverage(res, counts, cases, tier)
+        res.clause("assignment_probes", len(twins))
         j = judge("Judge_C20", obs, cfg_text=JUDGE_CFG, env={"SCHEMA_FILE": schema_file}, per_shard_min=250)
         res.add_judge("Judge_C20", j, "every exported case performed on the real builders/constructors; Expected(case) recomputed by TLC")
         res.coverage["phase_wall_s"] = dict(export_cases=round(t1 - t0, 1), real_code=round(t2 - t1, 1),
